@@ -14,8 +14,19 @@ Second hardening pass: the blocks of verifier/c08_recipe_blocks.py (whole-functi
   generator    : cache in a dict + nested helper functions + one loop for all configurations + try/finally; functools.partial over a function
                  picked from a tuple by `order == 1`, operator.attrgetter / itemgetter, lambda, starred unpacking and calls, list.append, zip over
                  a string; `yield from` a generator method / a nested generator function
-  typestate    : setattr loop over zip, `body(*args)`, generator.send(None) / __next__(), chained + starred unpacking, dict state + **kwargs"""
+  typestate    : setattr loop over zip, `body(*args)`, generator.send(None) / __next__(), chained + starred unpacking, dict state + **kwargs
+
+Third hardening pass: the blocks of verifier/c08_recipe_blocks3.py (verified byte-identical over the 84,066 records of compare_c08.py) are "neutral"
+recipes, and each new form has "break" recipes with one wrong edit inside:
+  state / arrays updated in place : the cached damping force through `np.add(.., out=)`, a `[:]` store, a helper's parameter (`frc += ..` inside a static
+                 method: `frc = frc + ..` there leaves the caller's cache stale); columns bound to locals and updated through them (`col = V[:, i]; col += ..`,
+                 `col[:] = ..`, `np.add(col, .., out=col)`); a scratch buffer refilled through `out=`
+  objects / dispatch : a small class defined inside the generator whose methods do the step; static methods that take the solver object under another name;
+                 one shared receiving loop that is handed the add-on / advance callbacks; a property deciding the order; functools.reduce over the terms;
+                 library functions under imported names (`from operator import matmul as _mm`, `times = mul if unc else matmul`), index tuples
+  loops        : `for _ in itertools.count()` / `iter(int, 1)` as receiving loops; batch loops over `zip(range(1, nt), PQF.T)`, sliced transposes"""
 from .c08_recipe_blocks import BLOCKS
+from .c08_recipe_blocks3 import BLOCKS3
 
 UNC = "pyyeti/ode/solveunc.py"
 SE2 = "pyyeti/ode/solveexp2.py"
@@ -234,3 +245,73 @@ RECIPES += [
     _break("ts_finalize", ["C08-R5"], '        for key in state:\n            delattr(self, "_" + key)', '        for key in ("d", "v"):\n            delattr(self, "_" + key)', "only d and v are forgotten"),
 ]
 
+
+
+def _neutral3(key, desc):
+    rel, old, new = BLOCKS3[key]
+    return ("C08", "neutral", [], rel, old, new, desc)
+
+
+def _break3(key, rules, a, b, desc, nth=None):
+    """the refactored form of block `key` with the edit a -> b inside (nth: which occurrence of `a`, when there are several)"""
+    rel, old, new = BLOCKS3[key]
+    if nth is None:
+        assert new.count(a) == 1, (key, a, new.count(a))
+        return ("C08", "break", rules, rel, old, new.replace(a, b), desc)
+    parts = new.split(a)
+    assert len(parts) > nth + 1, (key, a, len(parts))
+    return ("C08", "break", rules, rel, old, a.join(parts[:nth + 1]) + b + a.join(parts[nth + 1:]), desc)
+
+
+RECIPES += [
+    _neutral3("inplace_cache", "damping-as-force add-on: the cached force updated with np.add(.., out=) / a whole-array store"),
+    _neutral3("inplace_arg", "damping-as-force add-on in a static method that updates the cached force through its parameter (`frc += ..`)"),
+    _neutral3("local_class", "real generator: a small class defined inside the body holds the views, its methods advance / add on"),
+    _neutral3("explicit_self", "real generator: static methods that take the solver object explicitly under another name; `msg = yield`"),
+    _neutral3("send_loop_callbacks", "real generator: one shared receiving loop (yield from a static generator method) is handed add-on / advance callbacks"),
+    _neutral3("scratch_out", "real generator add-on: a scratch buffer refilled through out=, the velocity column updated through a local view"),
+    _neutral3("column_views", "SolveExp2 generator: columns bound to locals and updated through them (+=, np.add out=, [:] and [...] stores)"),
+    _neutral3("imported_ops_unc", "damping-as-force generator: `from operator import matmul as _mm` inside the body, _mm(bo, vi)"),
+    _neutral3("imported_ops_se2", "SolveExp2 generator: `times = mul if unc else matmul` chosen once, an index tuple (slice(None), i)"),
+    _neutral3("property_reduce", "real generator: a property decides the order; the step as functools.reduce over (coefficient, vector) pairs"),
+    _neutral3("endless_for_se2", "SolveExp2 generator: `for _ in itertools.count()` as receiving loops"),
+    _neutral3("endless_for_unc", "rf-only loops of both real generators: `for _send in iter(int, 1)`"),
+    _neutral3("batch_zip_range", "SolveExp2.tsolve: `for i, PQFi in zip(range(1, nt), PQF.T)`"),
+    _neutral3("batch_sliced_T", "SolveExp2.tsolve: enumerate(zip(PQF[ksize:].T, PQF[:ksize].T[: nt - 1]))"),
+    # ---- one wrong edit inside each new form
+    _break3("inplace_cache", ["C08-R1", "C08-R3"], "np.add(dmpfrc1, dmpfrc1_addon, out=dmpfrc1)", "np.add(dmpfrc1, dmpfrc1_addon)", "the sum is computed but the cached force is not updated"),
+    _break3("inplace_cache", ["C08-R3"], "dmpfrc1[:] = dmpfrc1 + dmpfrc1_addon", "dmpfrc1[:] = dmpfrc1 - dmpfrc1_addon", "whole-array store moves the cached force the wrong way"),
+    _break3("inplace_arg", ["C08-R1", "C08-R3"], "        frc += frc_addon\n", "        frc = frc + frc_addon\n",
+            "the helper rebinds its parameter instead of updating the array: the caller's cached force stays stale"),
+    _break3("inplace_arg", ["C08-R3"], "        frc += frc_addon\n", "        frc -= frc_addon\n", "the helper moves the cached force the wrong way"),
+    _break3("inplace_arg", ["C08-R1", "C08-R3"], "self._cdf_addon(alpha, B, Bp, d, v, i, F1, dmpfrc1)", "self._cdf_addon(alpha, B, Bp, d, v, i, F1, dmpfrc1.copy())",
+            "the helper is handed a copy of the cached force"),
+    _break3("local_class", ["C08-R2"], "self.coefs.Ap * f0 + self.coefs.Bp * f1", "self.coefs.Ap * f1 + self.coefs.Bp * f0", "method of the local class: forces exchanged in the velocity step"),
+    _break3("local_class", ["C08-R3"], "                        self.V[:, i] += self.coefs.Bp * f1\n", "                        self.V[:, i] += self.coefs.B * f1\n",
+            "method of the local class: the velocity add-on uses the displacement coefficient"),
+    _break3("local_class", ["C08-R2"], "                stepper = Stepper(pc, D, V)\n", "                stepper = Stepper(pc, V, D)\n", "the object is built with d and v exchanged"),
+    _break3("explicit_self", ["C08-R3"], "        V[:, i] += pc.Bp * f1\n", "        V[:, i] += pc.B * f1\n", "static method: the velocity add-on uses the displacement coefficient"),
+    _break3("explicit_self", ["C08-R2"], "self._real_advance(self, D, V, i, Force[kdof, i - 1], F1[kdof])", "self._real_advance(self, D, V, i, F1[kdof], Force[kdof, i - 1])",
+            "static method called with the two forces exchanged"),
+    _break3("send_loop_callbacks", ["C08-R2", "C08-R3"], "yield from self._send_loop(Force, addon, advance)", "yield from self._send_loop(Force, advance, addon)",
+            "the shared receiving loop is handed the callbacks the wrong way round"),
+    _break3("send_loop_callbacks", ["C08-R2"], "                force_hist[:, i] = F1\n                advance(i, F1)\n", "                force_hist[:, i] = F1\n                advance(i - 1, F1)\n",
+            "the shared receiving loop advances the previous column"),
+    _break3("scratch_out", ["C08-R3"], "np.multiply(Bp, F1k, out=tmp)", "np.multiply(B, F1k, out=tmp)", "scratch buffer refilled with the displacement increment"),
+    _break3("scratch_out", ["C08-R3"], "                        vcol = V[:, i]\n", "                        vcol = V[:, i].copy()\n", "the add-on goes into a copy of the velocity column"),
+    _break3("column_views", ["C08-R3"], "                    fcol = Force[:, i]\n", "                    fcol = Force[:, i - 1]\n", "the add-on force is accumulated into the previous column"),
+    _break3("column_views", ["C08-R3"], "np.add(vcol, PQF[:ksize], out=vcol)", "np.add(vcol, PQF[:ksize])", "the velocity add-on is computed and dropped"),
+    _break3("column_views", ["C08-R2"], "                    dcol[:] = E_dd @ d0", "                    dcol = E_dd @ d0", "the name of the column view is rebound: nothing is stored"),
+    _break3("imported_ops_unc", ["C08-R2"], "_mm(bo, vi)", "_mm(bo, di)", "recompute arm uses the displacement of step i-1", nth=0),
+    _break3("imported_ops_se2", ["C08-R2"], "cur = (slice(None), i)", "cur = (slice(None), i - 1)", "index tuple addresses the previous column"),
+    _break3("property_reduce", ["C08-R2"], "        return self.order == 1\n", "        return self.order == 0\n", "the property that decides the order is inverted"),
+    _break3("property_reduce", ["C08-R2"], "zip((Fp, Gp, Ap, Bp), state)", "zip((Fp, Gp, Bp, Ap), state)", "reduce over the terms: Ap and Bp exchanged"),
+    _break3("endless_for_se2", ["C08-R3"], "                        D[:, i] += PQF[ksize:]\n                        V[:, i] += PQF[:ksize]\n",
+            "                        D[:, i] += PQF[:ksize]\n                        V[:, i] += PQF[ksize:]\n", "endless for loop: add-on halves exchanged"),
+    _break3("endless_for_unc", ["C08-R2"], "                    d[:, i] = ikrf * F1[rf]\n", "                    d[:, i - 1] = ikrf * F1[rf]\n",
+            "endless for loop (rf only): stores into the previous column", nth=0),
+    _break3("batch_zip_range", ["C08-R2"], "zip(range(1, nt), PQF.T)", "zip(range(1, nt), PQF.T[1:])", "batch loop pairs step i with the force integral of step i + 1"),
+    _break3("batch_zip_range", ["C08-R2"], "+ PQFi[ksize:]", "+ PQFi[:ksize]", "batch loop: displacement takes the velocity half"),
+    _break3("batch_sliced_T", ["C08-R2"], "zip(PQF[ksize:].T, PQF[:ksize].T[: nt - 1])", "zip(PQF[:ksize].T, PQF[ksize:].T[: nt - 1])", "batch loop: halves of the force integral exchanged"),
+    _break3("batch_sliced_T", ["C08-R2"], "PQF[:ksize].T[: nt - 1]", "PQF[:ksize].T[1:]", "batch loop: the velocity half read one step ahead"),
+]
